@@ -166,8 +166,7 @@ theorem storeKey_eq_iff {d : Dims} (wf : d.WF) {ra a rb b ra' a' rb' b' : Int} (
   rw [Int.tmod_eq_of_lt h7 h8, Int.tmod_eq_of_lt h9 h10, Int.tmod_eq_of_lt g7 g8, Int.tmod_eq_of_lt g9 g10]
   constructor
   · intro heq
-    split at heq <;> split at heq <;> simp only [Prod.mk.injEq] at heq <;>
-      (obtain ⟨e1, e2, e3, e4⟩ := heq; split at e4 <;> split at e4 <;> omega)
+    split_ifs at heq <;> simp only [Prod.mk.injEq] at heq <;> omega
   · rintro (⟨e1, e2, e3, e4⟩ | ⟨hne, e1, e2, e3, e4⟩)
     · rw [e1, e2, e3, e4]
     · rw [e1, e2, e3, e4]
